@@ -527,6 +527,13 @@ class Grammar(Model):
         self._calc_lookahead_sets()
         self._mark_left_recursion()
 
+    def __setstate__(self, state: dict[str, Any]) -> None:
+        super().__setstate__(state)
+        # the weak references to the owning grammar are not pickled
+        # (copy() shares rules that are linked already and must stay so)
+        if any(rule._grammar_ref is None for rule in self.rules):
+            self.link(self)
+
     def configure(self, config: ParserConfig | None = None, **settings: Any):
         self._config.merge_config(config)
         self._config.merge(**settings)
